@@ -7,7 +7,7 @@ from . import defmachine as dm
 from .c13 import mk, case_from_replay, shrink_candidates   # noqa: F401
 
 TARGETS = ['Properties/C14.vo', 'Run/ObsC14.vo']
-THEOREMS = []
+THEOREMS = util.theorems('C14')
 RUN_MODULE = 'Run.ObsC14'
 SHARD_SIZE = 400
 RULE = ('pairs of definitions over ordered subsets of 2 object and 2 property names (overlapping and disjoint name sets, conflicting '
